@@ -1374,9 +1374,8 @@ func (q *seqGen) step() {
 			if g.Rng.Intn(6) == 0 {
 				n = g.Pick(61, 62, 63, 64, 65, 100)
 			}
-			if g.Rng.Intn(60) == 0 { // int(n) < 0: no ones at all (outside the specification's domain)
-				q.wf = false
-				q.write(1, fmt.Sprintf("wn:%d", uint64(1)<<63+uint64(g.Rng.Intn(5))))
+			if g.Rng.Intn(60) == 0 { // a count >= 2^63: ones up to the capacity, then the overflow error
+				q.write(1<<40, fmt.Sprintf("wn:%d", uint64(1)<<63+uint64(g.Rng.Intn(5))))
 				return
 			}
 			q.write(n+1, fmt.Sprintf("wn:%d", n))
@@ -1917,7 +1916,11 @@ func genC06(g *h.G) {
 			p = "-"
 		}
 		n := free + 1 + g.Rng.Intn(70)
-		g.Emit("go.overflow", fmt.Sprint(capBits), p, writeItem(n))
+		it := writeItem(n)
+		if g.Rng.Intn(25) == 0 { // a unary count >= 2^63 never fits (before repair d72ec26 it wrote a single 0 and succeeded)
+			it = fmt.Sprintf("wn:%d", uint64(1)<<63+uint64(g.Rng.Int63()))
+		}
+		g.Emit("go.overflow", fmt.Sprint(capBits), p, it)
 		g.Count("overflow")
 	}
 	for i := 0; i < g.Scale(1500, 30000); i++ {
